@@ -17,6 +17,43 @@ CLAIMED = {
         technique='automata equivalence on compiler-extracted DFAs + MIR dataflow rules (static analysis)',
         engine='A+C',
     ),
+,
+    'C13': dict(
+        category='proof',
+        text='Exact language inclusions on the compiled automata: every URI-family type ⊆ its IRI twin, full ⊆ reference types, URI family ⊆ ASCII '
+             '(the obligation behind each unchecked re-wrap, enumerated from MIR); guard equality L(X-ref) ∩ has-scheme = L(X) in both directions '
+             '("exactly when"); every conversion function between the eight RI types is classified (unchecked+inclusion / guarded / checked downcast '
+             'on the text of self with the original handed back / forwarder); URI and IRI twins have equal MIR summaries (595 pairs).',
+        design_ref='DESIGN.md §4 C13, Engine A, C-sites, C-sibling',
+        note='Decides acceptance, text preservation and family agreement of the conversions. "Identical comparison/hashing/resolution/editing '
+             'results in both families" is decided structurally (same generic common::* code, equal summaries of the duplicated code), not by evaluating results. '
+             'has-scheme predicate is a spec model of parse::find_scheme (spec/predicates.abnf).',
+        technique='automata inclusion + MIR site classification + sibling summary comparison (static analysis)',
+        engine='A+C',
+    ),
+    'C19': dict(
+        category='other',
+        text='The property is regular and is decided exactly by automata inclusion for all values: for each of the 10 percent-decodable component types '
+             '(17 PctStr/PctString::new_unchecked sites found in MIR) L(T) ⊆ TRIPLETS, ⊆ TOTAL (utf8-decode accepts the decoded octets: no panic in '
+             'chars/len/decode/eq/cmp/hash) and L(T)∩TOTAL ⊆ STRICT (no ill-formed/overlong sequence is given a text); plus discharge of every panic entry reachable '
+             'from the components\' eq/cmp/hash in the instance graph. On the pinned tree TOTAL and FAITHFUL FAIL for all 10 types (genuine defect F7, '
+             'witnesses %80 and %C0%80): recorded as known findings, so the level is "other" rather than "proof".',
+        design_ref='DESIGN.md §4 C19, §1.1 F7, §8',
+        note='Trusted: hand models of pct-str 2.0.0 / utf8-decode 1.0.1 (iv/pct.py), DFA_T (C01). Decoding to "exactly the component\'s bytes with %XX replaced" is the model\'s definition, not re-derived from pct-str\'s MIR.',
+        technique='automata inclusion against a decoder model + panic-site discharge on the instance graph (static analysis)',
+        engine='A+C',
+    ),
+    'C20': dict(
+        category='other',
+        text='Allocation-effect analysis over the monomorphic instance graph of the compiled program (calls, drops, reified fn pointers; unwind edges excluded): '
+             'from each of ~277 read-only roots selected by signature rule (borrowed constructors, accessors, parts, segment iterators, base, casts) no allocator entry, '
+             'virtual/indirect call or opaque non-core callee is reachable — for inputs of any size, since the analysis is over code. Zero-copy: the only unsafe '
+             'operations on those paths are reference-preserving casts, so returned references are sub-slices of the input by lifetimes. Positive control: normalized_segments must be seen to allocate.',
+        design_ref='DESIGN.md §4 C20, Engine C (C-alloc)',
+        note='Assumes crate core has no allocator and allocation happens only through __rust_alloc*/exchange_malloc. Order/non-overlap of the five components is the C02 obligation (not re-decided here).',
+        technique='interprocedural effect analysis on the monomorphic call graph (static analysis)',
+        engine='C',
+    ),
 }
 
 NOT_YET = 'engine for this property is not built yet in this round (see DESIGN.md §9 delivery order); not claimed until its check exists and passes'
